@@ -168,22 +168,25 @@ package cyclist
 //@     invariant forall k int :: 0 <= k && k < i ==> out[k] == byteAt(c.s, k)
 //@     invariant forall k int :: i <= k && k < len(out) ==> out[k] == old(out[k])
 
-// out[k] = state byte k XOR in[k] for every k < len(in) (at most 200).  The two slices must not overlap:
-// the function writes out[k] before it reads in[k].
+// out[k] = state byte k XOR (the entry value of) in[k] for every k < len(in) (at most 200).  The two slices are
+// either disjoint objects or the SAME window (in-place use: same array, same offset); partial overlap is excluded.
 //@ func (c *Cyclist) stateCopyAndAddBytes(in []byte, out []byte)
 //@   property C13 C02
 //@   persite
-//@   requires len(out) >= len(in) && ref(in) != ref(out)
+//@   requires len(out) >= len(in) && (ref(in) != ref(out) || off(in) == off(out))
+//@   split ref(in) == ref(out)
 //@   modifies out[:]
-//@   ensures forall k int :: 0 <= k && k < len(in) && k < 200 ==> out[k] == byteAt(c.s, k) ^ in[k]
+//@   ensures forall k int :: 0 <= k && k < len(in) && k < 200 ==> out[k] == byteAt(c.s, k) ^ old(in[k])
 // (abstraction: for at most 200 bytes the output is a function of the state and the input bytes)
-//@   defines len(in) <= 200 ==> bytes(out[:len(in)]) == stXor(c.s, bytes(in))
+//@   defines len(in) <= 200 ==> bytes(out[:len(in)]) == stXor(c.s, old(bytes(in)))
 //@   loop 1
 //@     invariant 0 <= stateIdx && stateIdx <= 25 && i == 8 * stateIdx && length == len(in) && (stateIdx > 0 ==> i <= length)
-//@     invariant forall k int :: 0 <= k && k < i ==> out[k] == byteAt(c.s, k) ^ in[k]
+//@     invariant forall k int :: 0 <= k && k < i ==> out[k] == byteAt(c.s, k) ^ (ref(in) == ref(out) ? old(in[k]) : in[k])
+//@     invariant forall k int :: 0 <= k && k < len(in) && (i <= k || ref(in) != ref(out)) ==> in[k] == old(in[k])
 //@   loop 2
 //@     invariant 0 <= stateIdx && stateIdx < 25 && 0 <= shift && shift <= 64 && shift & 7 == 0 && i == 8 * stateIdx + (shift >> 3) && length == len(in) && i <= length
-//@     invariant forall k int :: 0 <= k && k < i ==> out[k] == byteAt(c.s, k) ^ in[k]
+//@     invariant forall k int :: 0 <= k && k < i ==> out[k] == byteAt(c.s, k) ^ (ref(in) == ref(out) ? old(in[k]) : in[k])
+//@     invariant forall k int :: 0 <= k && k < len(in) && (i <= k || ref(in) != ref(out)) ==> in[k] == old(in[k])
 
 // ---------------------------------------------------------------------------
 // The duplex calls against the Cyclist specification (Daemen, Hoffert, Peeters, Van Assche, Van Keer:
